@@ -5,6 +5,7 @@ R08.1 TransportService emits ConnectionEstablished only with the insertion of th
 R08.2 outbound substream ids come from one shared atomic counter (fetch_add), created once
 R08.3 substream-open failures carry the id of the command that asked for the substream (all transports)
 R08.5 every outbound open future is awaited only through tokio::time::timeout armed with the configured open timeout (all transports)
+R08.6 ConnectionContext.primary is replaced only by the promoted secondary in on_connection_closed; .secondary only set from the new handle
 R08.4 TransportService::open_substream sends exactly one open request, on the primary connection, with the permit it acquired
 """
 import re
@@ -163,6 +164,35 @@ def r08_3(ctx, fx):
             ctx.ob("R08.3", "%s/report_substream_open_failure#%d:id-from-error" % (short(key), i), ok, site=fn.site(c.node), cfg=fx.cfg, detail=str(sorted(rs))[:300])
 
 
+def r08_6(ctx, fx):
+    """the handle of a live connection is never overwritten: in TransportService the `primary` slot of an existing peer context is
+    written only in on_connection_closed (promotion of the secondary that was taken out), and `secondary` only in
+    on_connection_established with the new connection's handle.  Replacing `primary` while that connection is still open makes the
+    service forget it: a later close of the other connection reports ConnectionClosed although the peer is still connected."""
+    writes = []
+    for key in sorted(fx.find(r"^protocol::transport_service::")):
+        fn = fx.fn(key)
+        for node, s_ in fn.assigns():
+            l = "".join(str(x) for x in s_["lhs"][1:])
+            if l.endswith(".primary") or l.endswith(".secondary"):
+                src = fn.origin(s_["rv"]["o"]) if s_["rv"]["r"] == "use" else s_["rv"].get("var", s_["rv"]["r"])
+                writes.append((short(key), l.rsplit(".", 1)[-1], fn.site(node), src, fn, node, s_))
+    ctx.anchor("R08.6", "writes to ConnectionContext.primary / .secondary", len(writes), 2, cfg=fx.cfg)
+    for who, fld, site, src, fn, node, s_ in writes:
+        if fld == "primary":
+            ok = who.endswith("on_connection_closed") and "@Some" in str(src)
+            why = "primary may only be replaced by the secondary handle taken out in on_connection_closed"
+        else:
+            ok = who.endswith("on_connection_established") or who.endswith("on_connection_closed")
+            if who.endswith("on_connection_established"):
+                # the stored value is Some(handle parameter)
+                sh = fn.shape(s_["rv"]["o"]) if s_["rv"]["r"] == "use" else set()
+                rs = guards.rootstrs(fn, s_["rv"]["o"]) if s_["rv"]["r"] == "use" else set()
+                ok = ok and all(x.startswith("Some") for x in sh) and any(r[0] == "param" and fn.local_ty(r[1]).endswith("ConnectionHandle") for r in fn.roots(s_["rv"]["o"]))
+            why = "secondary is set to the new connection's handle in on_connection_established (or cleared in on_connection_closed)"
+        ctx.ob("R08.6", "%s/writes-%s" % (who, fld), ok, site=site, cfg=fx.cfg, detail="%s; source %s" % (why, src))
+
+
 def r08_4(ctx, fx):
     fn = ctx.fn(fx, TS + "open_substream", "R08.4")
     if fn is None:
@@ -194,4 +224,5 @@ def run(ctx):
             r08_1(ctx, fx)
             r08_2(ctx, fx)
             r08_4(ctx, fx)
+            r08_6(ctx, fx)
         r08_3(ctx, fx)
